@@ -37,4 +37,26 @@ PROPS = {
         "trusted_base": ["cooperative scheduler on the verif yield hooks (harness/sched.go)"],
         "timeout": {"quick": 300, "thorough": 3000},
     },
+    "C19": {
+        "suites": ["c19"],
+        "assumptions": COMMON_ASSUME + [
+            "the children do not panic, do not call back into the multi reporter and hand out one fresh handle per allocation (recording children; handles are numbered by allocation order per child)",
+            "`for … range` over a slice visits the elements in index order, once each (Go spec); float64 / int64 / string / map arguments are passed unchanged by an interface method call",
+            "one goroutine: the property is about call histories, the sequence numbers come from one atomic counter shared by the children",
+            "Capabilities() of a child is a pure query: the multi reporter may ask each child several times (it asks up to twice), which is not counted as a forwarded call",
+        ],
+        "trusted_base": [
+            "the whole-body facts of multi/reporter.go (signature + every statement of the 2 constructors, 21 methods and 5 type declarations) extracted by factgen; the reading of these bodies as `fan` (one loop over the children in order) is by inspection",
+        ],
+        "timeout": {"quick": 300, "thorough": 1500},
+    },
+    "C05": {
+        "suites": ["scope-c05"],
+        "assumptions": COMMON_ASSUME + [
+            "a Go map is an association list with distinct keys enumerated in arbitrary order (key_order_independent quantifies over the order)",
+            "the registry shard of a request is a function of its raw key (maphash with a per-root seed); the harness observes it through a shim and the model takes it as an input",
+            "same-scope guarantee is judged only for derivations through inputs the sanitizer leaves unchanged (as the property states); with changed inputs and several shards the implementation may create a second object of one identity, which the model follows",
+        ],
+        "trusted_base": ["Model.Scope is tied to scope.go / scope_registry.go by the differential on random programs only (no structural facts beyond the key writer)"],
+    },
 }
